@@ -149,6 +149,8 @@ class Values(object):
 
     def text(self, r, lo, hi):
         n = r.randint(lo, min(hi, max(lo, lo + 7)))
+        if hi <= 80 and r.random() < .08:
+            n = hi                      # the longest value the definition admits
         if self.flavor == 'markup' and ' ' not in self.avoid and r.random() < .08:
             return ' ' * n          # an all-blank value satisfies an AN definition
         s = ''.join(r.choice(self.alpha) for _ in range(n))
@@ -187,6 +189,8 @@ class Values(object):
                 return ''.join(r.choice(self.base) for _ in range(n))
             return self.text(r, lo, hi)
         n = r.randint(lo, min(hi, max(lo, lo + 5)))
+        if hi <= 30 and r.random() < .12:
+            n = hi                      # the longest value the definition admits (sign and point do not count)
         if t[0] == 'N':
             s = str(r.randint(1, 9)) + ''.join(r.choice('0123456789') for _ in range(n - 1))
             if r.random() < .15 and '-' not in self.avoid:
